@@ -24,7 +24,7 @@ ASSUMPTIONS = [
 ]
 
 TARGETS = cproc.TARGETS
-HANG_S = 30   # normal runs take milliseconds; inputs judged by this rule are <= 64 KiB
+HANG_S = 15   # normal runs take milliseconds; inputs judged by this rule are <= 64 KiB
 
 
 def prepare(ctx):
@@ -49,7 +49,7 @@ def _args_for(path_or_case):
     return t
 
 
-def judge(ctx, src, target, extra, res, what, size_limit_for_hang=1 << 16, stdin=True, timeout=20):
+def judge(ctx, src, target, extra, res, what, size_limit_for_hang=1 << 16, stdin=True, timeout=12):
     """Run on the asan build; fill res.fail if the run ended badly."""
     p = cproc.cc(ctx, src, target, "asan", extra, timeout=timeout)
     c = cproc.classify(p)
@@ -60,11 +60,13 @@ def judge(ctx, src, target, extra, res, what, size_limit_for_hang=1 << 16, stdin
         if len(src) > size_limit_for_hang:
             res.discard.append("inconclusive-timeout-large-input")
             return p
-        for _ in range(3):
-            q = cproc.cc(ctx, src, target, "plain", extra, timeout=HANG_S)
-            if not q.timeout:
-                res.discard.append("inconclusive-timeout-asan-only")
-                return p
+        # three confirmations on the plain build, run side by side
+        from concurrent.futures import ThreadPoolExecutor
+        with ThreadPoolExecutor(3) as ex:
+            qs = list(ex.map(lambda _: cproc.cc(ctx, src, target, "plain", extra, timeout=HANG_S, preexec=cproc.limits(as_mb=4096)), range(3)))
+        if not all(q.timeout for q in qs):
+            res.discard.append("inconclusive-timeout-asan-only")
+            return p
         res.fail = dict(sig="hang:" + cproc.hang_site(ctx, src, target, extra), msg="no termination within %d s (3x, plain build): %s" % (HANG_S, what))
         return p
     if kind == "asan-stack-overflow":
